@@ -15,23 +15,27 @@ import Mathlib.Tactic.Ring
 
 namespace ChmpyVerif.Props.C09
 open ChmpyVerif.Brent ChmpyVerif.Density
+set_option linter.unusedSectionVars false
 
-theorem absK_eq (x : ℚ) : absK x = |x| := by
+section generic
+variable {K : Type} [Field K] [LinearOrder K] [IsStrictOrderedRing K]
+
+theorem absK_eq (x : K) : absK x = |x| := by
   unfold absK
   split
   · rw [abs_of_neg (by assumption)]
   · rw [abs_of_nonneg (by linarith)]
 
 /-- invariant at the head of the loop -/
-def Inv (f : ℚ → ℚ) (s : St ℚ) : Prop :=
+def Inv (f : K → K) (s : St K) : Prop :=
   s.fcur = f s.xcur ∧ s.fpre = f s.xpre ∧
     (s.fpre * s.fcur < 0 ∨ (s.fblk = f s.xblk ∧ s.fblk * s.fcur < 0) ∨ s.fcur = 0)
 
 /-- invariant after re-bracketing -/
-def Mid (f : ℚ → ℚ) (s : St ℚ) : Prop :=
+def Mid (f : K → K) (s : St K) : Prop :=
   s.fcur = f s.xcur ∧ s.fpre = f s.xpre ∧ ((s.fblk = f s.xblk ∧ s.fblk * s.fcur < 0) ∨ s.fcur = 0)
 
-theorem rebracket_mid (f : ℚ → ℚ) (s : St ℚ) (h : Inv f s) : Mid f (rebracket s) := by
+theorem rebracket_mid (f : K → K) (s : St K) (h : Inv f s) : Mid f (rebracket s) := by
   obtain ⟨h1, h2, h3⟩ := h
   unfold rebracket
   split
@@ -44,7 +48,7 @@ theorem rebracket_mid (f : ℚ → ℚ) (s : St ℚ) (h : Inv f s) : Mid f (rebr
     · exact Or.inl h
     · exact Or.inr h
 
-theorem swapBest_mid (f : ℚ → ℚ) (s : St ℚ) (h : Mid f s) : Mid f (swapBest s) := by
+theorem swapBest_mid (f : K → K) (s : St K) (h : Mid f s) : Mid f (swapBest s) := by
   obtain ⟨h1, h2, h3⟩ := h
   unfold swapBest
   split
@@ -58,7 +62,7 @@ theorem swapBest_mid (f : ℚ → ℚ) (s : St ℚ) (h : Mid f s) : Mid f (swapB
       exact absurd hlt (not_lt.mpr (abs_nonneg _))
   · exact ⟨h1, h2, h3⟩
 
-theorem sign_transfer (a b c : ℚ) (hab : a * b < 0) (hbc : ¬ b * c < 0) (hc : c ≠ 0) : a * c < 0 := by
+theorem sign_transfer (a b c : K) (hab : a * b < 0) (hbc : ¬ b * c < 0) (hc : c ≠ 0) : a * c < 0 := by
   rcases mul_neg_iff.mp hab with ⟨ha, hb⟩ | ⟨ha, hb⟩
   · have : c < 0 := by
       by_contra hcon
@@ -72,7 +76,7 @@ theorem sign_transfer (a b c : ℚ) (hab : a * b < 0) (hbc : ¬ b * c < 0) (hc :
     exact mul_neg_of_neg_of_pos ha this
 
 /-- the loop body returns only brackets below the tolerance (or exact zeros), and otherwise re-establishes `Inv` -/
-theorem body_spec (f : ℚ → ℚ) (xtol tol : ℚ) (s : St ℚ) (h : Inv f s) :
+theorem body_spec (f : K → K) (xtol tol : K) (s : St K) (h : Inv f s) :
     match body f xtol tol s with
     | .inl o => o.status = .converged ∧
         (f o.x = 0 ∨ (f o.x * f o.partner < 0 ∧ |o.partner - o.x| < xtol + tol * |o.x|))
@@ -92,8 +96,8 @@ theorem body_spec (f : ℚ → ℚ) (xtol tol : ℚ) (s : St ℚ) (h : Inv f s) 
       · right
         refine ⟨by rw [← m1, ← hb]; linarith [mul_comm m.fblk m.fcur], ?_⟩
         rw [absK_eq, absK_eq] at hs
-        rw [abs_div, abs_of_pos (by norm_num : (0:ℚ) < 2)] at hs
-        exact (div_lt_div_iff_of_pos_right (by norm_num : (0:ℚ) < 2)).mp hs
+        rw [abs_div, abs_of_pos (by norm_num : (0:K) < 2)] at hs
+        exact (div_lt_div_iff_of_pos_right (by norm_num : (0:K) < 2)).mp hs
       · left; rw [← m1]; exact h0
   · rw [if_neg hret]
     have hne : m.fcur ≠ 0 := by
@@ -113,7 +117,7 @@ theorem body_spec (f : ℚ → ℚ) (xtol tol : ℚ) (s : St ℚ) (h : Inv f s) 
       · right; left
         exact ⟨hbs.1, sign_transfer m.fblk m.fcur fnew hbs.2 hlt hz⟩
 
-theorem body_inl_status (f : ℚ → ℚ) (xtol tol : ℚ) (s : St ℚ) (o : Out ℚ) (hb : body f xtol tol s = .inl o) :
+theorem body_inl_status (f : K → K) (xtol tol : K) (s : St K) (o : Out K) (hb : body f xtol tol s = .inl o) :
     o.status = .converged := by
   unfold body at hb
   simp only at hb
@@ -124,7 +128,7 @@ theorem body_inl_status (f : ℚ → ℚ) (xtol tol : ℚ) (s : St ℚ) (o : Out
   · rw [if_neg hret] at hb
     cases hb
 
-theorem iterate_spec (f : ℚ → ℚ) (xtol tol : ℚ) (n : ℕ) (s : St ℚ) (h : Inv f s) :
+theorem iterate_spec (f : K → K) (xtol tol : K) (n : ℕ) (s : St K) (h : Inv f s) :
     (iterate f xtol tol n s).status = .converged →
       (f (iterate f xtol tol n s).x = 0 ∨
         (f (iterate f xtol tol n s).x * f (iterate f xtol tol n s).partner < 0 ∧
@@ -144,7 +148,7 @@ theorem iterate_spec (f : ℚ → ℚ) (xtol tol : ℚ) (n : ℕ) (s : St ℚ) (
       exact ih s' hb
 
 /-- **"not found" is reported exactly when there is no sign change between the bounds** -/
-theorem brent_noBracket_iff (f : ℚ → ℚ) (lower upper xtol tol : ℚ) (n : ℕ) :
+theorem brent_noBracket_iff (f : K → K) (lower upper xtol tol : K) (n : ℕ) :
     (brent f lower upper xtol tol n (-1)).status = .noBracket ↔ 0 < f lower * f upper := by
   unfold brent
   simp only
@@ -157,7 +161,7 @@ theorem brent_noBracket_iff (f : ℚ → ℚ) (lower upper xtol tol : ℚ) (n : 
     · split at h
       · simp at h
       · -- iterate never returns noBracket
-        have : ∀ (k : ℕ) (s : St ℚ), (iterate f xtol tol k s).status ≠ .noBracket := by
+        have : ∀ (k : ℕ) (s : St K), (iterate f xtol tol k s).status ≠ .noBracket := by
           intro k
           induction k with
           | zero => intro s; simp [iterate]
@@ -174,13 +178,13 @@ theorem brent_noBracket_iff (f : ℚ → ℚ) (lower upper xtol tol : ℚ) (n : 
   · intro h; simp [h]
 
 /-- … and then the returned radius is the negative sentinel `-1`, which the descriptor functions turn into `ValueError` -/
-theorem brent_noBracket_value (f : ℚ → ℚ) (lower upper xtol tol : ℚ) (n : ℕ) (h : 0 < f lower * f upper) :
+theorem brent_noBracket_value (f : K → K) (lower upper xtol tol : K) (n : ℕ) (h : 0 < f lower * f upper) :
     (brent f lower upper xtol tol n (-1)).x = -1 ∧ (brent f lower upper xtol tol n (-1)).x < 0 := by
   unfold brent; simp [h]
 
 /-- **the returned radius solves the isovalue equation**: a converged result is an exact zero of `f`, or one end of a
 sign change of `f` narrower than `xtol + tol·|x|` (for continuous `f`: a root within that distance) -/
-theorem brent_converged (f : ℚ → ℚ) (lower upper xtol tol : ℚ) (n : ℕ)
+theorem brent_converged (f : K → K) (lower upper xtol tol : K) (n : ℕ)
     (hc : (brent f lower upper xtol tol n (-1)).status = .converged) :
     f (brent f lower upper xtol tol n (-1)).x = 0 ∨
       (f (brent f lower upper xtol tol n (-1)).x * f (brent f lower upper xtol tol n (-1)).partner < 0 ∧
@@ -211,10 +215,12 @@ theorem brent_converged (f : ℚ → ℚ) (lower upper xtol tol : ℚ) (n : ℕ)
         · exact absurd h hnp
 
 /-- the iteration sees the scalar field only through its restriction to the ray -/
-theorem brent_congr (f g : ℚ → ℚ) (h : ∀ t, f t = g t) (lower upper xtol tol : ℚ) (n : ℕ) :
+theorem brent_congr (f g : K → K) (h : ∀ t, f t = g t) (lower upper xtol tol : K) (n : ℕ) :
     brent f lower upper xtol tol n (-1) = brent g lower upper xtol tol n (-1) := by
   have : f = g := funext h
   rw [this]
+
+end generic
 
 /-! ### pose and order independence of the radial function -/
 
